@@ -12,7 +12,13 @@
 //
 //	scripted in-memory remote ({204, 400 +/- drop, 429 +/- Retry-After, 5xx, reset, ...}); the
 //	expected outcome of each attempt is the documented rule applied to the attempt number the
-//	MODEL predicts, so wrong attempt numbers show up as wrong back-off delays as well.
+//	MODEL predicts, so wrong attempt numbers show up as wrong back-off delays as well. A script
+//	of a send/drain can end (after 0..3 accepted batches of the same scan) with the replication
+//	being closed while the remote holds the request unanswered / right before the write starts
+//	(the writer's done channel is closed, what replicationQueue.Close does); every later write
+//	through that writer is cut short the same way; the history then continues with, sometimes,
+//	one more SendWrite (run() can pick a pending signal over done) and the Close + reopen of the
+//	queue with a fresh writer. None of these writes was accepted by the remote.
 //
 // Oracle (per SendWrite call, against a list model of the enqueued batches):
 //   - every offered byte string is exactly one enqueued batch;
@@ -43,7 +49,6 @@ import (
 	"time"
 
 	"github.com/influxdata/influxdb/v2/replications/metrics"
-	"github.com/influxdata/influxdb/v2/replications/remotewrite"
 	"github.com/influxdata/influxdb/v2/replications/verifexport"
 	"go.uber.org/zap"
 	"pgregory.net/rapid"
@@ -69,15 +74,14 @@ type offer struct {
 	Problem  string // http mode: the real writer's result contradicts the documented rule
 }
 
-type rwriter interface {
-	Write(data []byte, attempt int) (time.Duration, error)
-}
-
 // hWriter is the remote writer handed to the queue.
 type hWriter struct {
 	mu     sync.Mutex
 	http   bool
-	real   rwriter
+	live   *liveWriter        // http mode: the real writer and its done channel
+	mk     func() *liveWriter // http mode: a fresh writer (the queue was opened again)
+	dead   bool               // the replication was closed (done channel) during/before a write
+	nAbort map[string]int     // aborted offers by kind
 	store  *cfgStore
 	script []decision
 	offers []offer
@@ -98,9 +102,37 @@ func (w *hWriter) take() []offer {
 	return o
 }
 
+func (w *hWriter) isDead() bool {
+	w.mu.Lock()
+	defer w.mu.Unlock()
+	return w.dead
+}
+
+// renew replaces the closed writer by a fresh one (the queue is being opened again).
+func (w *hWriter) renew() {
+	w.mu.Lock()
+	defer w.mu.Unlock()
+	if w.http && w.dead {
+		w.live.close()
+		w.live = w.mk()
+		w.dead = false
+	}
+}
+
+func abortDecision(when string) decision {
+	return decision{Resp: &response{Kind: "abort", AbortWhen: when}}
+}
+
 func (w *hWriter) nextDecision() decision {
 	w.mu.Lock()
 	defer w.mu.Unlock()
+	if w.http && w.dead {
+		// the done channel is closed: whatever the remote would answer, the request is cut short
+		if len(w.script) > 0 {
+			w.script = w.script[1:]
+		}
+		return abortDecision("before")
+	}
 	if len(w.script) > 0 {
 		d := w.script[0]
 		w.script = w.script[1:]
@@ -126,13 +158,29 @@ func (w *hWriter) Write(data []byte, attempt int) (time.Duration, error) {
 		modelAttempt := w.consec
 		e := expect(*d.Resp, modelAttempt)
 		w.store.set(*d.Resp)
-		remote.arm(*d.Resp)
-		wait, err = w.real.Write(data, attempt)
-		reqs := remote.take()
+		var reqs []seenReq
+		if d.Resp.Kind == "abort" {
+			wait, err, reqs = w.live.abortedWrite(*d.Resp, data, attempt, true)
+			w.mu.Lock()
+			w.dead = true
+			if w.nAbort == nil {
+				w.nAbort = map[string]int{}
+			}
+			w.nAbort[d.Resp.AbortWhen]++
+			w.mu.Unlock()
+		} else {
+			remote.arm(*d.Resp)
+			wait, err = w.live.w.Write(data, attempt)
+			reqs = remote.take()
+		}
 		o.Accepted = e.Accepted
 		switch {
+		case d.Resp.Kind == "abort" && w.live.stalled != "":
+			// judged by the property (inconclusive), not a statement about the writer
 		case checkRequests(reqs, data, e) != "":
 			o.Problem = checkRequests(reqs, data, e)
+		case e.Aborted && err == nil:
+			o.Problem = fmt.Sprintf("the replication was closed (%s) and the remote never answered the write, yet the writer returned a nil error: SendWrite takes the batch for accepted", respClass(*d.Resp))
 		case e.Accepted != (err == nil):
 			o.Problem = fmt.Sprintf("remote answered %s: documented outcome accepted=%v but the writer returned err=%v", respClass(*d.Resp), e.Accepted, err)
 		case e.WaitKnown && wait != e.Wait:
@@ -311,6 +359,16 @@ func genScript(t *rapid.T, label string, httpMode, allowZeroWait bool) []decisio
 	for i := 0; i < n; i++ {
 		s = append(s, genDecision(t, fmt.Sprintf("%s.%d", label, i), httpMode, allowZeroWait))
 	}
+	if httpMode && rapid.IntRange(0, 99).Draw(t, label+".closed") < 25 {
+		// the replication is closed during this scan, after 0..3 batches the remote accepted
+		when := rapid.SampledFrom([]string{"inflight", "inflight", "before"}).Draw(t, label+".closed.when")
+		pre := rapid.SampledFrom([]int{0, 0, 1, 2, 3}).Draw(t, label+".closed.after")
+		s = nil
+		for i := 0; i < pre; i++ {
+			s = append(s, decision{Accept: true, Resp: &response{Kind: "status", Status: http.StatusNoContent}})
+		}
+		s = append(s, abortDecision(when))
+	}
 	return s
 }
 
@@ -362,9 +420,10 @@ func TestPropQueueDiscipline(t *testing.T) {
 		w := &hWriter{http: httpMode}
 		if httpMode {
 			w.store = &cfgStore{url: memURL}
-			done := make(chan struct{})
-			defer close(done)
-			w.real = remotewrite.NewWriter(replID, w.store, metrics.NewReplicationsMetrics(), zap.NewNop(), done)
+			rm := metrics.NewReplicationsMetrics()
+			w.mk = func() *liveWriter { return newLiveWriter(w.store, rm) }
+			w.live = w.mk()
+			defer func() { w.live.close() }()
 		}
 		f := &qfix{dir: dir, segSize: c.SegSize, w: w}
 		if err := f.open(); err != nil {
@@ -380,6 +439,7 @@ func TestPropQueueDiscipline(t *testing.T) {
 			rec.Fail(t, name, key, detail, c)
 		}
 		rolled, reopenedWithPending, sends := false, false, 0
+		closedInFlight, sendsAfterClose := 0, 0
 
 		// one SendWrite call + all per-call checks
 		send := func(op *qop) (time.Duration, bool) {
@@ -388,6 +448,10 @@ func TestPropQueueDiscipline(t *testing.T) {
 			offers := w.take()
 			sends++
 			op.Result += fmt.Sprintf("[offers=%d ret=(%v,%v)]", len(offers), wait, retry)
+			if httpMode && w.live.stalled != "" {
+				rec.Inconclusive(name + ": " + w.live.stalled)
+				t.Skip("stalled")
+			}
 			if v := m.applyOffers(offers, true); v != nil {
 				fail(v.key, v.detail)
 			}
@@ -437,6 +501,50 @@ func TestPropQueueDiscipline(t *testing.T) {
 			}
 		}
 
+		// Close (unless crash) + open the directory again, with a fresh writer if the old one's
+		// done channel has been closed
+		reopen := func(op qop) {
+			if m.firstUnaccepted() < len(m.batches) {
+				reopenedWithPending = true
+			}
+			old := f.q
+			if op.Op == "reopen" {
+				if err := old.Close(false); err != nil {
+					t.Fatalf("close: %v", err)
+				}
+				old = nil
+			}
+			f.q = nil
+			if err := f.open(); err != nil {
+				fail("reopen-failed", fmt.Sprintf("%s of the queue directory failed: %v", op.Op, err))
+			}
+			if old != nil {
+				old.Close(false)
+			}
+			m.consec, w.consec = 0, 0
+			w.renew()
+			c.Ops = append(c.Ops, op)
+			tb := f.q.TotalBytes()
+			if h := m.headFor(tb); h < 0 || h > m.firstUnaccepted() {
+				fail("head-advanced-past-unaccepted", fmt.Sprintf("after %s TotalBytes()=%d (suffix from #%d) with batch #%d not accepted", op.Op, tb, h, m.firstUnaccepted()))
+			}
+		}
+		// the replication was closed during the last scan: sometimes one more SendWrite (run()
+		// may pick a pending signal / retry timer over done), then the queue is closed and, on
+		// the next start, opened again
+		afterClose := func(i int) {
+			if !w.isDead() {
+				return
+			}
+			closedInFlight++
+			if rapid.IntRange(0, 2).Draw(t, fmt.Sprintf("op%d.send-after-close", i)) == 0 {
+				c.Ops = append(c.Ops, qop{Op: "send-after-close"})
+				send(&c.Ops[len(c.Ops)-1])
+				sendsAfterClose++
+			}
+			reopen(qop{Op: "reopen"})
+		}
+
 		nOps := rapid.IntRange(4, 22).Draw(t, "nops")
 		for i := 0; i < nOps; i++ {
 			kinds := []string{"enqueue", "enqueue", "enqueue", "send", "send", "drain", "drain", "reopen", "crash-reopen"}
@@ -471,6 +579,7 @@ func TestPropQueueDiscipline(t *testing.T) {
 				c.Ops = append(c.Ops, op)
 				send(&c.Ops[len(c.Ops)-1])
 				w.setScript(nil)
+				afterClose(i)
 				continue
 			case "drain":
 				op.Script = genScript(t, fmt.Sprintf("op%d.s", i), httpMode, false)
@@ -478,31 +587,11 @@ func TestPropQueueDiscipline(t *testing.T) {
 				c.Ops = append(c.Ops, op)
 				drain(&c.Ops[len(c.Ops)-1])
 				w.setScript(nil)
+				afterClose(i)
 				continue
 			case "reopen", "crash-reopen":
-				if m.firstUnaccepted() < len(m.batches) {
-					reopenedWithPending = true
-				}
-				old := f.q
-				if op.Op == "reopen" {
-					if err := old.Close(false); err != nil {
-						t.Fatalf("close: %v", err)
-					}
-					old = nil
-				}
-				f.q = nil
-				if err := f.open(); err != nil {
-					fail("reopen-failed", fmt.Sprintf("%s of the queue directory failed: %v", op.Op, err))
-				}
-				if old != nil {
-					old.Close(false)
-				}
-				m.consec, w.consec = 0, 0
-				tb := f.q.TotalBytes()
-				if h := m.headFor(tb); h < 0 || h > m.firstUnaccepted() {
-					c.Ops = append(c.Ops, op)
-					fail("head-advanced-past-unaccepted", fmt.Sprintf("after %s TotalBytes()=%d (suffix from #%d) with batch #%d not accepted", op.Op, tb, h, m.firstUnaccepted()))
-				}
+				reopen(op)
+				continue
 			}
 			c.Ops = append(c.Ops, op)
 		}
@@ -541,6 +630,15 @@ func TestPropQueueDiscipline(t *testing.T) {
 		}
 		if reopenedWithPending {
 			rec.Class("queue:case:reopen-with-unaccepted")
+		}
+		if closedInFlight > 0 {
+			rec.Class("queue:case:replication-closed-during-scan")
+		}
+		if sendsAfterClose > 0 {
+			rec.Class("queue:case:sendwrite-after-close")
+		}
+		for when, n := range w.nAbort {
+			rec.ClassN("queue:offer:closed-"+when, n)
 		}
 		if m.nontrivial() {
 			rec.Class("queue:case:nontrivial")
@@ -707,6 +805,184 @@ func TestPropRunLoop(t *testing.T) {
 		if m.nontrivial() {
 			rec.Class("queue:case:nontrivial")
 			rec.NonTrivial("runloop|" + canonQueue(c))
+		}
+	})
+}
+
+// TestPropCloseWhileSending: the replication is closed while the real background loop is busy
+// with a remote that has stopped answering (server shutdown / replication close while the remote
+// is slow). The loop runs against the real writer and the scripted HTTP remote: the remote
+// accepts the first `pre` batches (204) and then holds a request unanswered; at that moment (or,
+// "before", at the start of that write) the writer's done channel is closed, more batches may
+// still be enqueued and signalled, and the queue is closed the way replicationQueue.Close does
+// (the loop may run further scans, whose writes are all cut short). Nothing that the remote did
+// not answer with 204 may have left the queue: the directory is opened again with a fresh writer
+// and an accepting remote, and the same rules as in TestPropQueueDiscipline must hold for the
+// flat offer log of the loop and for every SendWrite call afterwards, i.e. every batch the
+// remote had not accepted is offered again, in order, and the queue ends up empty.
+func TestPropCloseWhileSending(t *testing.T) {
+	const name = "TestPropCloseWhileSending"
+	rec.Assume("close-while-sending cases: the harness writer owns the done channel of the real remote writer (the shim's queue keeps the one of the writer it replaced), so 'closing the replication' = close(done) followed by the real replicationQueue.Close; a deadline of 20 s per case for the loop to reach the unanswered request (missing it = inconclusive)")
+	rec.Check(t, 500, 9000, func(t *rapid.T) {
+		c := qcase{Mode: "run-loop-close"}
+		c.SegSize = rapid.SampledFrom([]int64{64, 64, 128, 256, 0}).Draw(t, "segsize")
+		maxBatch := 60
+		if c.SegSize > 0 && int(c.SegSize/4) < maxBatch {
+			maxBatch = int(c.SegSize / 4)
+		}
+		dir, err := scratch.Dir("c27c-")
+		if err != nil {
+			t.Fatalf("scratch: %v", err)
+		}
+		defer os.RemoveAll(dir)
+
+		nb := rapid.IntRange(1, 8).Draw(t, "batches")
+		pre := rapid.IntRange(0, nb-1).Draw(t, "accepted_before_close")
+		when := rapid.SampledFrom([]string{"inflight", "inflight", "before"}).Draw(t, "when")
+		late := rapid.SampledFrom([]int{0, 0, 1, 2}).Draw(t, "late")
+		pauseUS := rapid.SampledFrom([]int{0, 0, 200, 1000}).Draw(t, "pause_us")
+		idx := 0
+		mkBatch := func(label string) []byte {
+			extra := rapid.SliceOfN(rapid.Byte(), 0, maxBatch-2).Draw(t, label)
+			b := append([]byte{byte(idx >> 8), byte(idx)}, extra...)
+			idx++
+			return b
+		}
+		var first, later [][]byte
+		op := qop{Op: "enqueue+notify"}
+		for i := 0; i < nb; i++ {
+			b := mkBatch(fmt.Sprintf("b%d", i))
+			first = append(first, b)
+			op.Batches = append(op.Batches, hex.EncodeToString(b))
+		}
+		var script []decision
+		for i := 0; i < pre; i++ {
+			script = append(script, decision{Accept: true, Resp: &response{Kind: "status", Status: http.StatusNoContent}})
+		}
+		script = append(script, abortDecision(when))
+		c.Ops = append(c.Ops, qop{Op: "script", Script: script}, op)
+		op = qop{Op: "enqueue+notify (remote hangs, done closed)"}
+		for i := 0; i < late; i++ {
+			b := mkBatch(fmt.Sprintf("l%d", i))
+			later = append(later, b)
+			op.Batches = append(op.Batches, hex.EncodeToString(b))
+		}
+		c.Ops = append(c.Ops, op, qop{Op: "close"}, qop{Op: "open + drain, remote accepts"})
+
+		m := newModel()
+		w := &hWriter{http: true, script: script, store: &cfgStore{url: memURL}}
+		rm := metrics.NewReplicationsMetrics()
+		w.mk = func() *liveWriter { return newLiveWriter(w.store, rm) }
+		w.live = w.mk()
+		defer func() { w.live.close() }()
+		f := &qfix{dir: dir, segSize: c.SegSize, w: w}
+		if err := f.open(); err != nil {
+			t.Fatalf("open queue: %v", err)
+		}
+		f.q.Run()
+		running := true
+		defer func() {
+			if f.q != nil {
+				f.q.Close(running)
+			}
+		}()
+		enqueue := func(bs [][]byte) {
+			for _, data := range bs {
+				m.add(data)
+				if err := f.q.Append(data); err != nil {
+					rec.Inconclusive(fmt.Sprintf("%s: Append failed on a 1 GiB queue: %v", name, err))
+					t.Skip("append failed")
+				}
+				f.q.Notify()
+			}
+		}
+		enqueue(first)
+		// wait for the loop to reach the request that is never answered
+		deadline := time.Now().Add(20 * time.Second)
+		for !w.isDead() {
+			if time.Now().After(deadline) {
+				f.q.Close(true)
+				f.q = nil
+				if v := m.applyOffers(w.take(), false); v != nil {
+					rec.Fail(t, name, v.key, v.detail, c)
+				}
+				rec.Inconclusive(fmt.Sprintf("%s: the loop did not reach offer %d within 20s", name, pre+1))
+				t.Skip("deadline")
+			}
+			time.Sleep(100 * time.Microsecond)
+		}
+		enqueue(later)
+		if pauseUS > 0 {
+			time.Sleep(time.Duration(pauseUS) * time.Microsecond)
+		}
+		running = false
+		if err := f.q.Close(true); err != nil {
+			t.Fatalf("close: %v", err)
+		}
+		f.q = nil
+		if w.live.stalled != "" {
+			rec.Inconclusive(name + ": " + w.live.stalled)
+			t.Skip("stalled")
+		}
+		loopOffers := w.take()
+		if v := m.applyOffers(loopOffers, false); v != nil {
+			rec.Fail(t, name, v.key, v.detail, c)
+		}
+		fuAtClose := m.firstUnaccepted()
+		if fuAtClose != pre {
+			// cannot happen with a sound model: exactly the scripted 204s were accepted
+			rec.Fail(t, name, "model-out-of-step", fmt.Sprintf("%d batches accepted by the remote before the close, model says %d", pre, fuAtClose), c)
+		}
+
+		// next start: fresh writer, the remote is back
+		w.renew()
+		m.consec, w.consec = 0, 0
+		if err := f.open(); err != nil {
+			rec.Fail(t, name, "reopen-failed", fmt.Sprintf("reopen failed: %v", err), c)
+		}
+		tb := f.q.TotalBytes()
+		if h := m.headFor(tb); h < 0 || h > fuAtClose {
+			rec.Fail(t, name, "head-advanced-past-unaccepted", fmt.Sprintf("the replication was closed while the remote held batch #%d unanswered (%d offers by the loop); after reopening TotalBytes()=%d (suffix from #%d of %d batches)", fuAtClose, len(loopOffers), tb, h, len(m.batches)), c)
+		}
+		for i := 0; ; i++ {
+			wait, retry := f.q.SendWrite()
+			offers := w.take()
+			if v := m.applyOffers(offers, true); v != nil {
+				rec.Fail(t, name, v.key, v.detail, c)
+			}
+			if len(offers) == 0 && m.firstUnaccepted() < len(m.batches) {
+				rec.Fail(t, name, "pending-batch-not-offered", fmt.Sprintf("after reopening, batch #%d is not accepted but SendWrite offered nothing (returned (%v,%v))", m.firstUnaccepted(), wait, retry), c)
+			}
+			if wait != 0 {
+				rec.Fail(t, name, "sendwrite-return", fmt.Sprintf("the remote accepts everything; SendWrite returned (%v,%v)", wait, retry), c)
+			}
+			if !retry {
+				break
+			}
+			if i > 4*len(m.batches)+50 {
+				rec.Fail(t, name, "drain-does-not-terminate", fmt.Sprintf("SendWrite kept returning (0,true) for %d calls", i), c)
+			}
+		}
+		if fu := m.firstUnaccepted(); fu < len(m.batches) {
+			rec.Fail(t, name, "batch-never-delivered", fmt.Sprintf("the remote accepts everything, the drain finished, but batch #%d was never accepted", fu), c)
+		}
+		if tb := f.q.TotalBytes(); tb != 0 {
+			rec.Fail(t, name, "accepted-batches-not-removed", fmt.Sprintf("every batch was accepted, but TotalBytes()=%d", tb), c)
+		}
+
+		rec.Eval()
+		rec.Class("queue:mode:run-loop-close")
+		rec.Class("queue:close-while-sending:" + when)
+		rec.ClassN("queue:close-while-sending:loop-offers-cut-short", len(loopOffers)-pre)
+		if late > 0 {
+			rec.Class("queue:close-while-sending:enqueued-after-close")
+		}
+		if pre > 0 && fuAtClose < len(m.batches)-1 {
+			rec.Class("queue:case:nontrivial-close")
+			rec.NonTrivial("runloop-close|" + canonQueue(c))
+			if rec.WantSample() {
+				rec.Sample(c)
+			}
 		}
 	})
 }
